@@ -38,6 +38,15 @@ class LimitGatedScheduler;
 
 struct SchedulePlacedWrapper;
 
+// A task that is skipped because its set was canceled is destroyed without being invoked.  A
+// OnceFunction does not release its functor on destruction, so a skipped OnceFunction must be
+// released explicitly.
+template <typename F>
+DISPENSO_INLINE void releaseSkippedTask(F& /*f*/) {}
+DISPENSO_INLINE void releaseSkippedTask(OnceFunction& f) {
+  f.cleanupNotRun();
+}
+
 DISPENSO_DLL_ACCESS void pushThreadTaskSet(TaskSetBase* tasks);
 DISPENSO_DLL_ACCESS void popThreadTaskSet();
 
@@ -140,6 +149,7 @@ class TaskSetBase {
 #endif // __cpp_exceptions
       } else {
         DISPENSO_VERIF_HOOK("ts.guard", this, 1, 0);
+        detail::releaseSkippedTask(f);
       }
       if (pushed) {
         detail::popThreadTaskSet();
@@ -173,6 +183,7 @@ class TaskSetBase {
 #endif // __cpp_exceptions
       } else {
         DISPENSO_VERIF_HOOK("ts.guard", this, 1, 0);
+        detail::releaseSkippedTask(f);
       }
       if (pushed) {
         detail::popThreadTaskSet();
